@@ -6,6 +6,8 @@
 (* directory.  Every version writes distinct constants, so the value       *)
 (* returned for a fixed request reads the versions back:                   *)
 (*     I = 1000*v_py + 100*v_inc + v_tmpl     (exact in every precision)   *)
+(* (v_py reaches the value through the default of a parameter for versions *)
+(* 1 and 2, which generate the same C, and through a C constant for 3)     *)
 (* Events: begin | Edit(f, v) | Load(p, b) -> value, dtype, npars, number  *)
 (* of libraries per precision in the cache | NewProcess(p).                *)
 (* The specification state is Cache's; each event must be the named Cache  *)
@@ -24,7 +26,7 @@ NParsOf(src) == IF src.py = 3 THEN 3 ELSE 2      \* version 3 of the definition 
 
 Reset == /\ text' = [f \in Files |-> 1] /\ mtime' = [f \in Files |-> 0] /\ clock' = 1
          /\ dll' = {} /\ means' = <<>> /\ modc' = [p \in Procs |-> NoMod]
-         /\ tmplc' = [p \in Procs |-> NoTmpl] /\ last' = [p \in Procs |-> NoLast]
+         /\ tmplc' = [p \in Procs |-> NoTmpl] /\ last' = [p \in Procs |-> NoLast] /\ wrapc' = [p \in Procs |-> {}]
          /\ just' = NoJust /\ steps' = 0
 
 Reject(e, clause, detail) ==
